@@ -198,6 +198,34 @@ func run(sc scenario) (body func(), check func(r *vrt.Result) []finding) {
 		}
 		cmp("c2s", w.Client.Sent, w.Server.Recv)
 		cmp("s2c", w.Server.Sent, w.Client.Recv)
+		// no frame delivered to an endpoint is larger than the maximum frame size that endpoint announced
+		// (announcements are made in the first step of a scenario, before any other traffic)
+		mfs := map[string]int{"client": 16384, "server": 16384}
+		for _, st := range sc.Steps {
+			for who, specs := range map[string][]hw.Spec{"client": st.Client, "server": st.Server} {
+				for _, sp := range specs {
+					if sp.T == "settings" {
+						for _, kv := range sp.Settings {
+							if kv[0] == 5 {
+								mfs[who] = int(kv[1])
+							}
+						}
+					}
+				}
+			}
+		}
+		for _, who := range []string{"client", "server"} {
+			dir, recv := "c2s", w.Server.Recv
+			if who == "client" {
+				dir, recv = "s2c", w.Client.Recv
+			}
+			for _, ev := range recv {
+				if ev.MaxFrame > mfs[who] {
+					add(dir+":frame_exceeds_max_frame_size:"+ev.T, "the %s announced a maximum frame size of %d but received a %s frame with a %d-byte payload (stream %d)", who, mfs[who], ev.T, ev.MaxFrame, ev.Stream)
+					break
+				}
+			}
+		}
 		if w.Client.RdErr != nil || w.Server.RdErr != nil {
 			add("endpoint_read_error", "client read err=%v server read err=%v", w.Client.RdErr, w.Server.RdErr)
 		}
@@ -502,6 +530,78 @@ func scenarios(tier string) []scenario {
 		{Server: []hw.Spec{{T: "settings_ack"}}},
 		{Client: shape{Frags: 1, HdrES: true}.frames(7, reqFields)},
 	}})
+	// header blocks larger than one frame: the relay has to cut the re-encoded block into HEADERS + CONTINUATION
+	// frames of at most the receiver's maximum frame size (default, and raised to 20000)
+	huge := func(n int) [][2]string { return [][2]string{{"x-huge", strings.Repeat("h", n)}} }
+	for _, n := range []int{16300, 16384, 40000} {
+		for _, mfs := range []uint32{0, 20000} {
+			st := settingsStep()
+			if mfs != 0 {
+				st = step{Client: []hw.Spec{{T: "settings", Settings: [][2]uint32{{5, mfs}}}}, Server: []hw.Spec{{T: "settings", Settings: [][2]uint32{{5, mfs}}}}}
+			}
+			out = append(out, scenario{Fam: "hpack", Name: fmt.Sprintf("header block with a %d-byte field both ways, max frame size %d", n, mfs), Class: "huge_block", Steps: []step{st,
+				{Client: []hw.Spec{{T: "headers", Stream: 1, Fields: append(append([][2]string{}, reqFields...), huge(n)...), Frags: 4, EndStream: true}}},
+				{Server: []hw.Spec{{T: "headers", Stream: 1, Fields: append(append([][2]string{}, resFields...), huge(n)...), Frags: 4},
+					{T: "headers", Stream: 1, Fields: append(append([][2]string{}, trailerFields...), huge(n)...), Frags: 4, EndStream: true}}},
+			}})
+			out = append(out, scenario{Fam: "hpack", Name: fmt.Sprintf("header block with a %d-byte field and priority, then a pushed request in one frame, max frame size %d", n, mfs), Class: "huge_block", Steps: []step{st,
+				{Client: []hw.Spec{{T: "headers", Stream: 1, Fields: append(append([][2]string{}, reqFields...), huge(n)...), Frags: 4, Prio: true, Dep: 0, Weight: 3, EndStream: true}}},
+				{Server: []hw.Spec{{T: "push", Stream: 1, Promise: 2, Fields: append(append([][2]string{}, reqFields...), huge(n/4)...), Frags: 1},
+					{T: "headers", Stream: 1, Fields: resFields, EndStream: true}}},
+			}})
+		}
+	}
+	// the receiver shrinks / disables its header table before repeated blocks arrive (the relay's encoder toward it
+	// must follow), in both directions
+	for _, ts := range []uint32{0, 100} {
+		out = append(out, scenario{Fam: "hpack", Name: fmt.Sprintf("receivers announce header table size %d, then repeated blocks both ways", ts), Class: "table_size", Steps: []step{
+			{Client: []hw.Spec{{T: "settings", Settings: [][2]uint32{{1, ts}}}}, Server: []hw.Spec{{T: "settings", Settings: [][2]uint32{{1, ts}}}}},
+			{Client: []hw.Spec{{T: "settings_ack"}}, Server: []hw.Spec{{T: "settings_ack"}}},
+			{Client: append(append(shape{Frags: 1, HdrES: true}.frames(1, reqFields), shape{Frags: 2, HdrES: true}.frames(3, reqFields)...), shape{Frags: 1, HdrES: true}.frames(5, reqFields)...)},
+			{Server: append(append(shape{Frags: 1, HdrES: true}.frames(1, resFields), shape{Frags: 1, HdrES: true}.frames(3, resFields)...), shape{Frags: 2, HdrES: true}.frames(5, resFields)...)},
+		}})
+	}
+	// priority parameters other than the defaults, on HEADERS and on PRIORITY frames
+	out = append(out, scenario{Fam: "misc", Name: "priority parameters: exclusive, dependency on another stream, weights 0 and 255", Steps: []step{settingsStep(),
+		{Client: []hw.Spec{{T: "headers", Stream: 1, Fields: reqFields, Prio: true, Dep: 0, Weight: 255, Excl: true},
+			{T: "headers", Stream: 3, Fields: reqFields, Prio: true, Dep: 1, Weight: 0, Frags: 2},
+			{T: "priority", Stream: 3, Prio: true, Dep: 1, Weight: 7, Excl: true}, {T: "priority", Stream: 9, Prio: true, Dep: 3, Weight: 255},
+			{T: "data", Stream: 1, Len: 4, EndStream: true}, {T: "rst", Stream: 3, Code: 0}}},
+		{Server: []hw.Spec{{T: "headers", Stream: 1, Fields: resFields}, {T: "rst", Stream: 1, Code: 0xffffffff}}},
+	}})
+	// the CONNECTION window (not a stream window) blocks DATA while trailers and another stream's headers are pending
+	for _, dir := range []string{"c2s", "s2c"} {
+		used := []hw.Spec{}
+		for i := 0; i < 4; i++ {
+			n := 16383
+			if i == 3 {
+				n = 16383 // 4 x 16383 = 65532: three bytes of connection window are left
+			}
+			used = append(used, hw.Spec{T: "data", Stream: 5, Len: n})
+		}
+		if dir == "c2s" {
+			out = append(out, scenario{Fam: "window", Name: "connection window (3 bytes left) blocks s1 data+trailers, s3 headers pass, then connection credit", Class: "conn_window",
+				Steps: []step{
+					{Client: []hw.Spec{{T: "settings"}}, Server: []hw.Spec{{T: "settings"}}},
+					{Client: append([]hw.Spec{{T: "headers", Stream: 5, Fields: reqFields}}, used...)},
+					{Client: []hw.Spec{{T: "headers", Stream: 1, Fields: reqFields}, {T: "data", Stream: 1, Len: 5}, {T: "headers", Stream: 1, Fields: trailerFields, EndStream: true}}},
+					{Client: []hw.Spec{{T: "headers", Stream: 3, Fields: reqFields, EndStream: true}}},
+					{Server: []hw.Spec{{T: "wu", Stream: 0, Incr: 1}}},
+					{Server: []hw.Spec{{T: "wu", Stream: 0, Incr: 10}}},
+				}})
+		} else {
+			out = append(out, scenario{Fam: "window", Name: "connection window (3 bytes left) blocks s1 response data+trailers, s3 response headers pass, then connection credit", Class: "conn_window:s2c",
+				Steps: []step{
+					{Client: []hw.Spec{{T: "settings"}}, Server: []hw.Spec{{T: "settings"}}},
+					{Client: []hw.Spec{{T: "headers", Stream: 5, Fields: reqFields, EndStream: true}, {T: "headers", Stream: 1, Fields: reqFields, EndStream: true}, {T: "headers", Stream: 3, Fields: reqFields, EndStream: true}}},
+					{Server: append([]hw.Spec{{T: "headers", Stream: 5, Fields: resFields}}, used...)},
+					{Server: []hw.Spec{{T: "headers", Stream: 1, Fields: resFields}, {T: "data", Stream: 1, Len: 5}, {T: "headers", Stream: 1, Fields: trailerFields, EndStream: true}}},
+					{Server: []hw.Spec{{T: "headers", Stream: 3, Fields: resFields, EndStream: true}}},
+					{Client: []hw.Spec{{T: "wu", Stream: 0, Incr: 1}}},
+					{Client: []hw.Spec{{T: "wu", Stream: 0, Incr: 10}}},
+				}})
+		}
+	}
 	return out
 }
 
